@@ -391,6 +391,15 @@ var errPathRE = regexp.MustCompile(` err(path|old|new)="((?:[^"\\]|\\.)*)"`) //n
 // string equality: paths embedded in errors are compared as absolute clean virtual paths (and must not
 // reveal B), names of temporary files are random, and the name reported for the virtual root is judged apart.
 func bpNormalise(bp, twin avfs.VFS, o fsx.Op, got, want fsx.Result) (g, w string, soft *sim.Violation) {
+	if strings.HasPrefix(o.K, "F") {
+		// the error of a handle method names the file as it was opened: a standalone file system repeats the
+		// string it was given, which can only be compared when that string was absolute.
+		if m := errPathRE.FindStringSubmatch(want.Data); m != nil && !strings.HasPrefix(m[2], "/") {
+			got.Data = errPathRE.ReplaceAllString(got.Data, "")
+			want.Data = errPathRE.ReplaceAllString(want.Data, "")
+		}
+	}
+
 	norm := func(v avfs.VFS, r fsx.Result) (string, []string) {
 		var paths []string
 
